@@ -743,7 +743,16 @@ func ruleC19Status(r *Run) {
 	names := []string{"Render", "ShouldRender", "MustRender", "Respond", "HTTPError", "Text", "HTML", "HTMLString", "Blob", "Stream", "JSON", "JSONBytes", "XML", "JSONP", "Binary", "dispositionContent"}
 	var helpers []*ssa.Function
 	for _, n := range names {
-		f := w.Fn("rux", "Context."+n)
+		f := w.FnOpt("rux", "Context."+n)
+		if f == nil && n == "dispositionContent" {
+			f = dispositionHelper(w) // renamed / turned into a plain function: found by what calls it
+		}
+		if f == nil && n == "dispositionContent" {
+			continue // written in line in Binary / Attachment / Inline (Binary is in the list itself)
+		}
+		if f == nil {
+			f = w.Fn("rux", "Context."+n)
+		}
 		helpers = append(helpers, f)
 		m.statusOf[f] = firstIntParam(f)
 	}
@@ -889,6 +898,40 @@ func ruleC19CType(r *Run) {
 				ok = okc && s == want
 			}
 		}
+		// or the helper delegates to a sibling of the same content type (HTMLString -> HTML), handing its argument over
+		delegated := false
+		if !ok {
+			for _, t2 := range table {
+				if t2.helper == t.helper || t2.constName != t.constName {
+					continue
+				}
+				g := w.FnOpt("rux", "Context."+t2.helper)
+				if g == nil {
+					continue
+				}
+				for _, c := range callsToFn(f, g) {
+					a := c.Common().Args
+					d := a[len(a)-1]
+					for {
+						if cv, isCv := d.(*ssa.Convert); isCv {
+							d = cv.X
+							continue
+						}
+						break
+					}
+					for _, prm := range f.Params[1:] {
+						if d == ssa.Value(prm) {
+							delegated = true
+						}
+					}
+				}
+			}
+		}
+		if delegated {
+			r.Check(rule, FuncName(f), f.Pos(), true, fmt.Sprintf("delegates to a sibling helper of the same content type (httpctype.%s), handing its own argument over", t.constName))
+			r.Check(rule, FuncName(f)+":body is the argument", f.Pos(), true, "the sibling receives the helper's own argument (converted at most)")
+			continue
+		}
 		r.Check(rule, FuncName(f), f.Pos(), ok, fmt.Sprintf("content type passed to Blob: %q (documented: httpctype.%s = %q)", got, t.constName, want))
 		// ... and the body is the helper's own argument, converted at most: not a formatted / rewritten version of it
 		okBody := false
@@ -967,21 +1010,34 @@ func ruleC19CType(r *Run) {
 		r.Check(rule, FuncName(f), f.Pos(), okR && okC, fmt.Sprintf("responds through render.%s whose Render writes %q (documented: httpctype.%s = %q)", t.renderer, got, t.constName, want))
 	}
 	// Binary / Attachment / Inline -> dispositionContent sets Binary
-	dc := w.Fn("rux", "Context.dispositionContent")
+	dc := w.FnOpt("rux", "Context.dispositionContent")
+	if dc == nil {
+		dc = dispositionHelper(w)
+	}
 	want, _ := httpctypeConst(w, "Binary")
 	keyC, _ := httpctypeConst(w, "Key")
-	okD := false
-	for _, c := range callsToName(dc, "(net/http.Header).Set") {
-		k, _ := constString(c.Common().Args[1])
-		v, _ := constString(c.Common().Args[2])
-		if k == keyC && v == want {
-			okD = true
+	setsBinary := func(g *ssa.Function) bool {
+		for _, c := range callsToName(g, "(net/http.Header).Set") {
+			k, _ := constString(c.Common().Args[1])
+			v, _ := constString(c.Common().Args[2])
+			if k == keyC && v == want {
+				return true
+			}
 		}
+		return false
 	}
-	r.Check(rule, "(*Context).dispositionContent", dc.Pos(), okD, fmt.Sprintf("Binary/Attachment/Inline set Content-Type %q", want))
-	for _, n := range []string{"Binary", "Attachment", "Inline"} {
-		f := w.Fn("rux", "Context."+n)
-		r.Check(rule, FuncName(f), f.Pos(), len(callsToFn(f, dc)) == 1, "goes through dispositionContent")
+	if dc != nil {
+		r.Check(rule, "(*Context).dispositionContent", dc.Pos(), setsBinary(dc), fmt.Sprintf("Binary/Attachment/Inline set Content-Type %q", want))
+		for _, n := range []string{"Binary", "Attachment", "Inline"} {
+			f := w.Fn("rux", "Context."+n)
+			r.Check(rule, FuncName(f), f.Pos(), len(callsToFn(f, dc)) == 1, "goes through dispositionContent")
+		}
+	} else {
+		// the shared writer was written in line (or is a helper the normalisation inlined): each of the three sets the type itself
+		for _, n := range []string{"Binary", "Attachment", "Inline"} {
+			f := w.Fn("rux", "Context."+n)
+			r.Check(rule, FuncName(f), f.Pos(), setsBinary(f), fmt.Sprintf("sets Content-Type %q itself", want))
+		}
 	}
 }
 
@@ -2287,4 +2343,35 @@ func inRecursion(g *ssa.Function) bool {
 		}
 	})
 	return rec
+}
+
+// dispositionHelper: the one module function that Binary, Attachment and Inline all call and that sets a response
+// header — the shared "content disposition" writer, whatever its name and receiver.
+func dispositionHelper(w *World) *ssa.Function {
+	count := map[*ssa.Function]int{}
+	for _, n := range []string{"Binary", "Attachment", "Inline"} {
+		f := w.FnOpt("rux", "Context."+n)
+		if f == nil {
+			return nil
+		}
+		seen := map[*ssa.Function]bool{}
+		eachInstr(f, func(in ssa.Instruction) {
+			if c, ok := in.(ssa.CallInstruction); ok {
+				if sc := staticCallee(c); sc != nil && w.InModule(sc) && !seen[sc] && len(callsToName(sc, "(net/http.Header).Set")) > 0 {
+					seen[sc] = true
+					count[sc]++
+				}
+			}
+		})
+	}
+	var found *ssa.Function
+	for f, n := range count {
+		if n == 3 {
+			if found != nil {
+				return nil
+			}
+			found = f
+		}
+	}
+	return found
 }
